@@ -166,7 +166,7 @@ impl Stats {
             *self.max_live_hist.entry(*k).or_default() += v;
         }
         self.stmts += o.stmts;
-        self.log_hash ^= o.log_hash;
+        self.log_hash = self.log_hash.wrapping_add(o.log_hash);
         for (k, v) in &o.other_findings {
             *self.other_findings.entry(k.clone()).or_default() += v;
         }
@@ -189,7 +189,8 @@ impl Stats {
         for (k, v) in &o.probes {
             *self.probes.entry(k.clone()).or_default() += v;
         }
-        self.log_hash ^= o.log_hash.rotate_left((self.executions % 63) as u32);
+        // commutative combination: independent of how runs are partitioned over workers
+        self.log_hash = self.log_hash.wrapping_add(o.log_hash.wrapping_mul(0x9e3779b97f4a7c15) ^ (o.log_hash >> 29));
     }
 }
 
